@@ -79,10 +79,14 @@ def spend_twice(ncalls: int = 2, variant: str = "plain", twin: bool = False, rea
         cs = W.state(pv)
         head = cs.current_chain_hash
         keypairs = {W.keys[0].public_key: priv(0), W.keys[1].public_key: priv(1)}
-        if variant == "reorg":
-            keypairs[W.keys[3].public_key] = priv(3)
+        if variant in ("reorg", "overtaken"):
+            keypairs[W.keys[3].public_key] = priv(3)       # the key whose outputs differ between the two branches
         wallet = wl.Wallet(keypairs, [W.keys[1].public_key], {W.keys[0].public_key: "used"})
         states = [cs, cs, cs]
+        if variant in ("consolidated", "overtaken"):
+            # the balance at the old head was looked at before the next block arrived (wallets display it): whatever the node
+            # remembered from that must not leak into the state after the block
+            _ = cs.public_key_balances_by_hash[cs.current_chain_hash]
         if variant == "consolidated":
             cbq = W.env.coinbase(W.h, [dt.Output(1, W.keys[2])], tok(TX, 25))
             q = W.make_tx(tok(TX, 26), [(0, 0, 0), (2, 0, 0)], [(v0 + v2, 0)], pv, cbq.hash(), None)     # (T10,0)+(T11,0), both K0 -> K0
